@@ -3,11 +3,13 @@ package main
 import "os"
 
 // ---------------------------------------------------------------------------
-// Generic map VM.  One history = one spec; all decisions at top level come from
-// a sequential PRNG, all decisions inside range loops are functions of
-// (seed, loop id, key index) so that the iteration order of the map cannot leak
-// into the rest of the history.  The monitor (shadow map, loop records) uses
-// slices only - it never relies on a map itself.
+// Map VM core (untyped).  One history = one spec.  All decisions at top level
+// come from a sequential PRNG; all decisions inside range loops are functions
+// of (seed, loop id, key index), and loop bodies are built from roles whose
+// combined effect does not depend on the order in which range produces the
+// entries - so the iteration order of the map cannot leak into the rest of the
+// history and the llgo run and the go run execute identical histories.
+// The monitor (shadow map, loop records) uses slices only - never a map.
 // ---------------------------------------------------------------------------
 
 type rng struct{ s uint64 }
@@ -96,17 +98,19 @@ func (s *shadow) clear() {
 
 func (s *shadow) n() int { return len(s.e) + len(s.nans) }
 
-// ---- loop records
+// ---- loop records (per-loop bookkeeping of the range laws)
 
 type loopRec struct {
 	id        uint64
 	startLen  int
-	inserts   int
+	inserts   int // entries created while this loop was running
 	yields    int
-	startNext int
-	seen      []bool
+	startNext int    // entry ids below this existed when the loop started
+	seen      []bool // by entry id
 	cleared   bool
 }
+
+func (l *loopRec) wasSeen(id int) bool { return id < len(l.seen) && l.seen[id] }
 
 func (l *loopRec) mark(id int) bool {
 	for len(l.seen) <= id {
@@ -133,13 +137,17 @@ const (
 	nFlavours
 )
 
-// roles
+// roles of a key in one loop (function of seed, loop id, key index).
+// Triggers act when they are produced; targets are passive.  Triggers are never
+// deleted by another key and targets never act, so the set of triggers that fire
+// (= triggers live at loop start, by the range law) and therefore the state after
+// the loop is independent of the iteration order.
 const (
 	rPassive = iota
 	rDelSelf
 	rDelOther
 	rInsert
-	rBounce
+	rBounce // delete + re-insert another key: the re-inserted key is a NEW entry
 	rUpdate
 	rNester
 	rVictim
@@ -159,7 +167,7 @@ var roleTab = [nFlavours][16]uint8{
 
 var flavourNames = [nFlavours]string{"collect", "break", "delcur", "delall", "delother", "insert", "mixed", "nested", "clear"}
 
-// ---- profiles: weights of top-level operations
+// ---- profiles: weights of top-level operations and loop flavours
 
 const (
 	oInsNew = iota
@@ -179,20 +187,25 @@ const (
 	nOps
 )
 
-var opNames = [nOps]string{"insnew", "assign", "updlive", "dellive", "delrand", "look", "look2", "len", "clear", "remake", "range", "dump", "nil", "unhash"}
-
 type profile struct {
 	name string
 	w    [nOps]int
-	osc  bool
+	fw   [nFlavours]int
+	osc  bool // live count oscillates between lo and hi
+	cap  bool // never more than hi entries (same-size-grow churn)
 }
 
+var fwAll = [nFlavours]int{fCollect: 6, fBreak: 2, fDelCur: 4, fDelAll: 1, fDelOther: 4, fInsert: 5, fMixed: 6, fNested: 3, fClear: 1}
+var fwNoGrow = [nFlavours]int{fCollect: 4, fBreak: 1, fDelCur: 3, fDelOther: 3, fNested: 2}
+var fwClear = [nFlavours]int{fCollect: 4, fBreak: 1, fDelCur: 2, fDelOther: 2, fInsert: 4, fMixed: 4, fNested: 2, fClear: 6}
+
 var profiles = []profile{
-	{"mixed", [nOps]int{oInsNew: 12, oAssign: 14, oUpdLive: 8, oDelLive: 10, oDelRand: 6, oLook: 12, oLook2: 12, oLen: 4, oClear: 1, oRemake: 1, oRange: 10, oDump: 2, oNil: 2, oUnhash: 3}, false},
-	{"osc", [nOps]int{oInsNew: 0, oAssign: 4, oUpdLive: 4, oDelLive: 0, oDelRand: 2, oLook: 5, oLook2: 5, oLen: 1, oClear: 0, oRemake: 0, oRange: 3, oDump: 1, oNil: 0, oUnhash: 1}, true},
-	{"iter", [nOps]int{oInsNew: 14, oAssign: 6, oUpdLive: 3, oDelLive: 8, oDelRand: 2, oLook: 3, oLook2: 3, oLen: 2, oClear: 1, oRemake: 1, oRange: 40, oDump: 3, oNil: 1, oUnhash: 1}, false},
-	{"fill", [nOps]int{oInsNew: 40, oAssign: 6, oUpdLive: 4, oDelLive: 6, oDelRand: 2, oLook: 6, oLook2: 6, oLen: 2, oClear: 0, oRemake: 0, oRange: 3, oDump: 1, oNil: 0, oUnhash: 1}, false},
-	{"clear", [nOps]int{oInsNew: 30, oAssign: 6, oUpdLive: 2, oDelLive: 6, oDelRand: 2, oLook: 5, oLook2: 5, oLen: 2, oClear: 3, oRemake: 1, oRange: 12, oDump: 2, oNil: 0, oUnhash: 1}, false},
+	{"mixed", [nOps]int{oInsNew: 60, oAssign: 50, oUpdLive: 30, oDelLive: 36, oDelRand: 20, oLook: 44, oLook2: 44, oLen: 12, oClear: 1, oRemake: 1, oRange: 36, oDump: 6, oNil: 6, oUnhash: 10}, fwAll, false, false},
+	{"osc", [nOps]int{oInsNew: 0, oAssign: 16, oUpdLive: 16, oDelLive: 0, oDelRand: 8, oLook: 20, oLook2: 20, oLen: 4, oClear: 0, oRemake: 0, oRange: 14, oDump: 3, oNil: 1, oUnhash: 3}, fwAll, true, false},
+	{"churn", [nOps]int{oInsNew: 0, oAssign: 6, oUpdLive: 6, oDelLive: 0, oDelRand: 4, oLook: 8, oLook2: 8, oLen: 2, oClear: 0, oRemake: 0, oRange: 10, oDump: 1, oNil: 0, oUnhash: 1}, fwNoGrow, true, true},
+	{"iter", [nOps]int{oInsNew: 56, oAssign: 24, oUpdLive: 12, oDelLive: 28, oDelRand: 8, oLook: 12, oLook2: 12, oLen: 8, oClear: 1, oRemake: 1, oRange: 160, oDump: 12, oNil: 4, oUnhash: 4}, fwAll, false, false},
+	{"fill", [nOps]int{oInsNew: 160, oAssign: 24, oUpdLive: 16, oDelLive: 24, oDelRand: 8, oLook: 24, oLook2: 24, oLen: 8, oClear: 0, oRemake: 0, oRange: 12, oDump: 3, oNil: 1, oUnhash: 4}, fwAll, false, false},
+	{"clear", [nOps]int{oInsNew: 120, oAssign: 24, oUpdLive: 8, oDelLive: 20, oDelRand: 8, oLook: 20, oLook2: 20, oLen: 8, oClear: 6, oRemake: 2, oRange: 40, oDump: 6, oNil: 1, oUnhash: 4}, fwClear, false, false},
 }
 
 type spec struct {
@@ -206,119 +219,120 @@ type spec struct {
 	flags        int // 1: avoid clear on grown maps (open finding); 2: scattered int keys; 4: fixed probe script
 }
 
-const avoidLen = 52 // clear is avoided on map objects that ever held more entries (or were made with a larger hint)
+// clear is avoided (flags&1) on map objects that ever held more entries than this
+// or were made with a larger hint: the class of open finding C06-memclr-stub
+// (B >= 4, i.e. more than 6*2^3 entries: bucket array with preallocated overflow buckets)
+const avoidLen = 48
 
 type stats struct {
 	maxB, grows, sameSize, loopsInGrow, loopsGrew, maxNover, loops, maxLen, clears, clearsGrown, remakes, panics int
-	yields                                                                                                   int
-	flav                                                                                                     [nFlavours]int
-	ops                                                                                                      [nOps]int
+	yields, forced                                                                                               int
+	flav                                                                                                         [nFlavours]int
+	ops                                                                                                          [nOps]int
 }
 
-type vmT[K comparable, V comparable] struct {
-	ko      *keyOps[K]
-	vo      *valOps[V]
-	sp      *spec
-	m       map[K]V
-	nm      map[K]V
-	sh      shadow
-	r       rng
-	h       uint64
-	op      int
-	bad     int
-	active  []*loopRec
-	loopSeq uint64
-	objMax  int // max(len ever, hint) of the current map object
-	rising  bool
-	st      stats
-	lastB   int
-	lastSS  bool
-	trace   bool
-	zero    V
+type vmT struct {
+	d        driver
+	distinct bool
+	sp       *spec
+	sh       shadow
+	r        rng
+	h        uint64
+	op       int
+	bad      int
+	active   []*loopRec
+	loopSeq  uint64
+	objMax   int // upper bound of max(len ever, hint) of the current map object; order independent
+	rising   bool
+	force    int
+	st       stats
+	lastB    int
+	lastSS   bool
+	trace    bool
 }
 
-func (v *vmT[K, V]) mix(x int) { v.h = (v.h ^ uint64(x)) * 1099511628211 }
+func (v *vmT) mix(x int) { v.h = (v.h ^ uint64(x)) * 1099511628211 }
 
-func (v *vmT[K, V]) fail(msg string, a, b int) {
+func (v *vmT) fail(msg string, a, b int) {
 	v.bad++
 	if v.bad <= 10 {
 		println("MONITOR:", msg, "op", v.op, "a", a, "b", b)
 	}
 }
 
-func (v *vmT[K, V]) norm(x int) int {
-	if v.vo.distinct {
+func (v *vmT) norm(x int) int {
+	if v.distinct {
 		return x
 	}
 	return 0
 }
 
-func (v *vmT[K, V]) noteInsert() {
+func isThreshold(n int) bool {
+	// load-factor growth thresholds: 8, then 6*2^B in llgo's port (loadFactorNum is
+	// (8*13/16)*2 = 12 there) or 6.5*2^B (Go's original constant)
+	if n == 8 {
+		return true
+	}
+	for t := 12; t <= n; t *= 2 {
+		if t == n || t+t/12 == n {
+			return true
+		}
+	}
+	return false
+}
+
+func (v *vmT) noteInsert() {
 	for _, l := range v.active {
 		l.inserts++
 	}
-	if n := v.sh.n(); n > v.objMax {
-		v.objMax = n
-	}
-	if n := v.sh.n(); n > v.st.maxLen {
+	n := v.sh.n()
+	if n > v.st.maxLen {
 		v.st.maxLen = n
 	}
+	if len(v.active) == 0 && n > v.objMax {
+		// top level only (inside loops the momentary length depends on the iteration order)
+		v.objMax = n
+		if isThreshold(n - 1) {
+			v.force = 3 // the table has just started to grow: iterate soon
+		}
+	}
 }
 
-// ---- primitive operations (update the shadow, check the result)
+// ---- primitive operations (perform on the real map, update the shadow)
 
-func (v *vmT[K, V]) assign(i, x int) {
-	k := v.ko.mk(i)
-	v.m[k] = v.vo.val(x)
-	if v.ko.nan(i) {
+func (v *vmT) assign(i, x int) {
+	v.d.Assign(i, x)
+	if v.d.NaN(i) {
 		v.sh.addNaN(i, x)
 		v.noteInsert()
-	} else if v.sh.set(v.ko.canon(i), x) {
+	} else if v.sh.set(v.d.Canon(i), x) {
 		v.noteInsert()
 	}
 	if v.trace {
-		println("T", v.op, "assign", i, x, "len", len(v.m))
+		b, fl, nov, gr := v.d.Peek()
+		println("T", v.op, "assign", i, x, "len", v.d.Len(), "B", b, "flags", fl, "noverflow", nov, "growing", gr)
 	}
 }
 
-func (v *vmT[K, V]) del(i int) {
-	delete(v.m, v.ko.mk(i))
-	if !v.ko.nan(i) {
-		v.sh.del(v.ko.canon(i))
+func (v *vmT) del(i int) {
+	v.d.Delete(i)
+	if !v.d.NaN(i) {
+		v.sh.del(v.d.Canon(i))
 	}
 	if v.trace {
-		println("T", v.op, "delete", i, "len", len(v.m))
+		println("T", v.op, "delete", i, "len", v.d.Len())
 	}
 }
 
-func (v *vmT[K, V]) expect(i int) (int, bool) {
-	if v.ko.nan(i) {
+func (v *vmT) expect(i int) (int, bool) {
+	if v.d.NaN(i) {
 		return 0, false
 	}
-	p, ok := v.sh.find(v.ko.canon(i))
+	p, ok := v.sh.find(v.d.Canon(i))
 	if !ok {
 		return 0, false
 	}
 	return v.sh.e[p].x, true
-}
-
-func (v *vmT[K, V]) checkVal(what string, i int, got V, gotOK bool, commaOK bool) {
-	x, live := v.expect(i)
-	if commaOK && gotOK != live {
-		v.fail(what+": ok flag wrong (a=key index, b=1 if shadow has the key)", i, b2i(live))
-	}
-	if live {
-		if got != v.vo.val(x) {
-			v.fail(what+": value differs from the most recently stored one (a=key index, b=expected x)", i, x)
-		}
-	} else if got != v.zero {
-		v.fail(what+": absent key does not yield the zero value (a=key index)", i, v.vo.unval(got))
-	}
-	v.mix(i)
-	v.mix(v.vo.unval(got))
-	if v.trace {
-		println("T", v.op, what, i, v.vo.unval(got), gotOK)
-	}
 }
 
 func b2i(b bool) int {
@@ -328,53 +342,74 @@ func b2i(b bool) int {
 	return 0
 }
 
-func (v *vmT[K, V]) lookup1(i int) {
-	got := v.m[v.ko.mk(i)]
-	v.checkVal("lookup", i, got, false, false)
-}
-
-func (v *vmT[K, V]) lookup2(i int) {
-	got, ok := v.m[v.ko.mk(i)]
-	v.checkVal("lookup2", i, got, ok, true)
-	v.mix(b2i(ok))
-}
-
-func (v *vmT[K, V]) checkLen() {
-	if len(v.m) != v.sh.n() {
-		v.fail("len(m) differs from the number of live entries (a=len, b=shadow)", len(v.m), v.sh.n())
+func (v *vmT) checkVal(what string, i int, gx int, isZero, intact bool) {
+	x, live := v.expect(i)
+	if live {
+		if gx != v.norm(x) || !intact {
+			v.fail(what+": value differs from the most recently stored one (a=key index, b=expected x)", i, x)
+		}
+	} else if !isZero {
+		v.fail(what+": absent key does not yield the zero value (a=key index, b=x of the value)", i, gx)
 	}
-	v.mix(len(v.m))
+	v.mix(i)
+	v.mix(gx)
+}
+
+func (v *vmT) lookup1(i int) {
+	gx, isZero, intact := v.d.Get1(i)
+	v.checkVal("lookup", i, gx, isZero, intact)
 	if v.trace {
-		println("T", v.op, "len", len(v.m))
+		println("T", v.op, "lookup", i, gx)
 	}
 }
 
-func (v *vmT[K, V]) doClear() {
+func (v *vmT) lookup2(i int) {
+	gx, isZero, intact, ok := v.d.Get2(i)
+	if _, live := v.expect(i); ok != live {
+		v.fail("lookup2: ok flag wrong (a=key index, b=1 if the key is live)", i, b2i(live))
+	}
+	v.checkVal("lookup2", i, gx, isZero, intact)
+	v.mix(b2i(ok))
+	if v.trace {
+		println("T", v.op, "lookup2", i, gx, ok)
+	}
+}
+
+func (v *vmT) checkLen() {
+	n := v.d.Len()
+	if n != v.sh.n() {
+		v.fail("len(m) differs from the number of live entries (a=len, b=live)", n, v.sh.n())
+	}
+	v.mix(n)
+	if v.trace {
+		println("T", v.op, "len", n)
+	}
+}
+
+func (v *vmT) doClear() {
 	if v.objMax > avoidLen {
 		v.st.clearsGrown++
 	}
 	v.st.clears++
-	clear(v.m)
+	v.d.Clear()
 	v.sh.clear()
 	for _, l := range v.active {
 		l.cleared = true
 	}
 	if v.trace {
-		println("T", v.op, "clear", "len", len(v.m))
+		println("T", v.op, "clear", "len", v.d.Len())
 	}
 }
 
-func (v *vmT[K, V]) clearAllowed() bool {
+func (v *vmT) clearAllowed() bool {
 	return v.sp.flags&1 == 0 || v.objMax <= avoidLen
 }
 
-func (v *vmT[K, V]) remake(hint int) {
+func (v *vmT) remake(hint int) {
 	v.st.remakes++
+	v.d.Remake(hint)
 	if hint < 0 {
-		v.m = map[K]V{}
 		hint = 0
-	} else {
-		v.m = make(map[K]V, hint)
 	}
 	v.objMax = hint
 	v.sh.clear()
@@ -425,8 +460,7 @@ func try(f func()) (cls string) {
 	return "none"
 }
 
-func (v *vmT[K, V]) expectPanic(what, want string, f func()) {
-	got := try(f)
+func (v *vmT) panicResult(what, want, got string) {
 	v.st.panics++
 	// spec-determined: compared with the reference run as well
 	println("P", v.op, what, got)
@@ -435,101 +469,75 @@ func (v *vmT[K, V]) expectPanic(what, want string, f func()) {
 	}
 }
 
-func (v *vmT[K, V]) nilOps(i int) {
-	k := v.ko.mk(i)
-	got := v.nm[k]
-	g2, ok := v.nm[k]
-	if got != v.zero || g2 != v.zero || ok || len(v.nm) != 0 {
-		v.fail("nil map read is not zero/false/0", i, len(v.nm))
+func (v *vmT) nilOps(i int) {
+	problems, cls := v.d.NilOps(i)
+	if problems != 0 {
+		v.fail("nil map: read not zero/false/len 0 (1), range iterates (2), map changed by failed write (4): a=bits", problems, 0)
 	}
-	n := 0
-	for range v.nm {
-		n++
-	}
-	if n != 0 {
-		v.fail("range over nil map iterates", n, 0)
-	}
-	delete(v.nm, k)
-	clear(v.nm)
-	v.expectPanic("nilmap-write", "nilmap", func() { v.nm[k] = v.vo.val(i) })
-	if v.nm != nil || len(v.nm) != 0 {
-		v.fail("nil map changed by a failed write", 0, 0)
-	}
+	v.panicResult("nilmap-write", "nilmap", cls)
 }
 
-func (v *vmT[K, V]) unhashOps(j int) bool {
-	u := unhashable(j)
-	k, ok := u.(K)
+var unhashNames = [...]string{"unhashable-assign", "unhashable-lookup", "unhashable-lookup2", "unhashable-delete", "unhashable-nilmap-read"}
+
+func (v *vmT) unhashOps(j int) bool {
+	mode := j / 6 % 5
+	cls, ok := v.d.Unhash(j, mode)
 	if !ok {
 		return false
 	}
-	x := j & 1023
-	switch j / 6 % 5 {
-	case 0:
-		v.expectPanic("unhashable-assign", "unhashable", func() { v.m[k] = v.vo.val(x) })
-	case 1:
-		v.expectPanic("unhashable-lookup", "unhashable", func() { _ = v.m[k] })
-	case 2:
-		v.expectPanic("unhashable-lookup2", "unhashable", func() { _, _ = v.m[k] })
-	case 3:
-		v.expectPanic("unhashable-delete", "unhashable", func() { delete(v.m, k) })
-	default:
-		v.expectPanic("unhashable-nilmap-read", "unhashable", func() { _ = v.nm[k] })
-	}
+	v.panicResult(unhashNames[mode], "unhashable", cls)
 	v.checkLen() // the failed operation must leave the map usable and unchanged
 	return true
 }
 
 // ---- range loops
 
-func (v *vmT[K, V]) runaway(l *loopRec) {
+func (v *vmT) runaway(l *loopRec) {
 	v.fail("range loop yields more entries than len at start + entries created during the loop (a=yields, b=bound): runaway iteration", l.yields, l.startLen+l.inserts)
 	println("END", v.sp.text, "runaway")
 	os.Exit(3)
 }
 
 // onYield checks one (key, value) pair produced by a range loop against the shadow
-// and the per-loop record.  Returns the canonical key index (-1: do nothing).
-func (v *vmT[K, V]) onYield(l *loopRec, k K, val V) int {
+// and the per-loop record.  Returns the canonical key index, or -1 (no action).
+func (v *vmT) onYield(l *loopRec, ki, x int, intact bool) int {
 	l.yields++
 	v.st.yields++
 	if l.yields > l.startLen+l.inserts {
 		v.runaway(l)
 	}
-	ki := v.ko.idx(k)
-	if ki == -2 || k != k {
+	if ki == -2 {
 		// NaN-like key: every such entry is its own entry, identified by its value
-		if val != v.vo.val(v.vo.unval(val)) {
-			v.fail("range yields a corrupted value for a NaN key", v.vo.unval(val), 0)
+		if !intact {
+			v.fail("range yields a corrupted value for a NaN key (a=x)", x, 0)
 			return -1
 		}
-		x := v.vo.unval(val)
 		found := -1
 		for j := range v.sh.nans {
 			e := &v.sh.nans[j]
-			if v.norm(e.x) == x && !(len(l.seen) > e.id && l.seen[e.id]) {
+			if v.norm(e.x) == x && !l.wasSeen(e.id) {
 				found = j
 				break
 			}
 		}
 		if found < 0 {
-			v.fail("range yields a NaN-keyed entry that is not live or was already produced (a=value x)", x, len(v.sh.nans))
+			v.fail("range yields a NaN-keyed entry that is not live or was already produced (a=value x, b=live NaN entries)", x, len(v.sh.nans))
 			return -1
 		}
 		l.mark(v.sh.nans[found].id)
 		return -1
 	}
 	if ki < 0 {
-		v.fail("range yields a key that was never inserted", l.yields, v.vo.unval(val))
+		v.fail("range yields a key that was never inserted (a=yield number, b=value x)", l.yields, x)
 		return -1
 	}
 	p, ok := v.sh.find(ki)
 	if !ok {
-		v.fail("range yields a key that is not in the map (deleted or never inserted) (a=key index)", ki, v.vo.unval(val))
+		v.fail("range yields a key that is not in the map: deleted or never inserted (a=key index, b=value x)", ki, x)
 		return -1
 	}
 	e := v.sh.e[p]
-	if val != v.vo.val(e.x) {
+	if x != v.norm(e.x) || !intact {
 		v.fail("range yields a stale or corrupted value (a=key index, b=expected x)", ki, e.x)
 	}
 	if l.mark(e.id) {
@@ -538,35 +546,41 @@ func (v *vmT[K, V]) onYield(l *loopRec, k K, val V) int {
 	return ki
 }
 
-func (v *vmT[K, V]) loopEnd(l *loopRec, complete bool) {
+func (v *vmT) loopEnd(l *loopRec, complete bool) {
+	if len(v.active) == 1 {
+		// deterministic upper bound of the length reached inside the loop
+		if b := l.startLen + l.inserts; b > v.objMax {
+			v.objMax = b
+		}
+	}
 	if !complete || l.cleared {
 		return
 	}
 	// every entry that existed when the loop started and still exists (same
 	// entry id => never deleted in between) must have been produced
 	for _, e := range v.sh.e {
-		if e.id < l.startNext && !(len(l.seen) > e.id && l.seen[e.id]) {
+		if e.id < l.startNext && !l.wasSeen(e.id) {
 			v.fail("range missed an entry that was present during the whole loop (a=key index, b=entry id)", e.ki, e.id)
 		}
 	}
 	for _, e := range v.sh.nans {
-		if e.id < l.startNext && !(len(l.seen) > e.id && l.seen[e.id]) {
-			v.fail("range missed a NaN-keyed entry present during the whole loop (a=value x)", e.x, e.id)
+		if e.id < l.startNext && !l.wasSeen(e.id) {
+			v.fail("range missed a NaN-keyed entry present during the whole loop (a=value x, b=entry id)", e.x, e.id)
 		}
 	}
 }
 
-func (v *vmT[K, V]) roleOf(fl int, lid uint64, ki int) int {
+func (v *vmT) roleOf(fl int, lid uint64, ki int) int {
 	return int(roleTab[fl][mix3(v.sp.seed, lid, uint64(ki))&15])
 }
 
 // target picks a non-NaN canonical pool index with the wanted role; a pure
 // function of (loop id, trigger key).
-func (v *vmT[K, V]) target(fl int, lid uint64, ki int, want int) int {
+func (v *vmT) target(fl int, lid uint64, ki int, want int) int {
 	h := mix3(v.sp.seed^0xabcdef, lid, uint64(ki))
 	t := int(h % uint64(v.sp.pool))
 	for n := 0; n < 48; n++ {
-		if v.ko.canon(t) == t && !v.ko.nan(t) && v.roleOf(fl, lid, t) == want {
+		if v.d.Canon(t) == t && !v.d.NaN(t) && v.roleOf(fl, lid, t) == want {
 			return t
 		}
 		t++
@@ -577,34 +591,34 @@ func (v *vmT[K, V]) target(fl int, lid uint64, ki int, want int) int {
 	return -1
 }
 
-func (v *vmT[K, V]) valueFor(lid uint64, t int) int {
+func (v *vmT) valueFor(lid uint64, t int) int {
 	return int(mix3(v.sp.seed^0x777, lid, uint64(t)) % 100000)
 }
 
-func (v *vmT[K, V]) rangeLoop(fl int, lid uint64, depth int) {
+func (v *vmT) rangeLoop(fl int, lid uint64, depth int) {
 	l := &loopRec{id: lid, startLen: v.sh.n(), startNext: v.sh.nextID}
 	v.active = append(v.active, l)
 	v.st.loops++
 	v.st.flav[fl]++
-	b0, _, _, g0 := peekMap(mapPtr(&v.m))
+	b0, _, _, g0 := v.d.Peek()
 	if g0 {
 		v.st.loopsInGrow++
 	}
 	if v.trace {
-		println("T", v.op, "range", flavourNames[fl], "depth", depth, "len", len(v.m))
+		println("T", v.op, "range", flavourNames[fl], "depth", depth, "len", v.d.Len())
 	}
 	complete := true
 	brk := 1 + int(mix3(v.sp.seed, lid, 99)%uint64(l.startLen+1))
 	didClear := false
-	for k, val := range v.m {
-		ki := v.onYield(l, k, val)
+	v.d.Range(func(rki, x int, intact bool) bool {
+		ki := v.onYield(l, rki, x, intact)
 		if v.bad > 10 {
 			complete = false
-			break
+			return false
 		}
 		if fl == fBreak && l.yields >= brk {
 			complete = false
-			break
+			return false
 		}
 		if fl == fClear {
 			if !didClear {
@@ -614,15 +628,15 @@ func (v *vmT[K, V]) rangeLoop(fl int, lid uint64, depth int) {
 				n := int(mix3(v.sp.seed, lid, 7) % 12)
 				for j := 0; j < n; j++ {
 					t := int(mix3(v.sp.seed, lid, uint64(100+j)) % uint64(v.sp.pool))
-					if !v.ko.nan(t) {
+					if !v.d.NaN(t) {
 						v.assign(t, v.valueFor(lid, t))
 					}
 				}
 			}
-			continue
+			return true
 		}
 		if ki < 0 || fl == fCollect || fl == fBreak {
-			continue
+			return true
 		}
 		switch v.roleOf(fl, lid, ki) {
 		case rDelSelf:
@@ -649,34 +663,36 @@ func (v *vmT[K, V]) rangeLoop(fl int, lid uint64, depth int) {
 				v.rangeLoop(fCollect, mix3(lid, uint64(ki), 1), 1)
 			}
 		}
-	}
+		return true
+	})
 	v.loopEnd(l, complete)
 	v.active = v.active[:len(v.active)-1]
-	b1, _, _, g1 := peekMap(mapPtr(&v.m))
+	b1, _, _, g1 := v.d.Peek()
 	if b1 != b0 || (g1 && !g0) {
 		v.st.loopsGrew++
 	}
 }
 
 // dump: collect by range, sort by key index, compare with the shadow entry by entry
-func (v *vmT[K, V]) dump() {
+func (v *vmT) dump() {
 	l := &loopRec{id: 0, startLen: v.sh.n(), startNext: v.sh.nextID}
 	v.active = append(v.active, l)
 	got := make([]ent, 0, l.startLen)
 	nanSum := 0
 	nanCnt := 0
-	for k, val := range v.m {
-		ki := v.onYield(l, k, val)
+	v.d.Range(func(rki, x int, intact bool) bool {
+		ki := v.onYield(l, rki, x, intact)
 		if v.bad > 10 {
-			break
+			return false
 		}
 		if ki >= 0 {
-			got = append(got, ent{ki, v.vo.unval(val), 0})
-		} else if k != k {
-			nanSum += v.vo.unval(val)
+			got = append(got, ent{ki, x, 0})
+		} else if rki == -2 {
+			nanSum += x
 			nanCnt++
 		}
-	}
+		return true
+	})
 	v.loopEnd(l, v.bad <= 10)
 	v.active = v.active[:len(v.active)-1]
 	sortEnts(got)
@@ -715,16 +731,16 @@ func sortEnts(a []ent) {
 
 // ---- key choice helpers (top level only: sequential PRNG allowed)
 
-func (v *vmT[K, V]) randKey() int { return v.r.n(v.sp.pool) }
+func (v *vmT) randKey() int { return v.r.n(v.sp.pool) }
 
-func (v *vmT[K, V]) liveKey() int {
+func (v *vmT) liveKey() int {
 	if len(v.sh.e) == 0 {
 		return v.randKey()
 	}
 	return v.sh.e[v.r.n(len(v.sh.e))].ki
 }
 
-func (v *vmT[K, V]) newKey() int {
+func (v *vmT) newKey() int {
 	i := v.randKey()
 	for n := 0; n < 8; n++ {
 		if _, live := v.expect(i); !live {
@@ -735,8 +751,8 @@ func (v *vmT[K, V]) newKey() int {
 	return i
 }
 
-func (v *vmT[K, V]) sample() {
-	b, fl, nov, growing := peekMap(mapPtr(&v.m))
+func (v *vmT) sample() {
+	b, fl, nov, growing := v.d.Peek()
 	if b > v.st.maxB {
 		v.st.maxB = b
 	}
@@ -754,58 +770,100 @@ func (v *vmT[K, V]) sample() {
 	}
 }
 
-func (v *vmT[K, V]) step() {
+func (v *vmT) pickFlavour() int {
+	fw := &v.sp.prof.fw
+	tot := 0
+	for _, x := range fw {
+		tot += x
+	}
+	pick := v.r.n(tot)
+	for f := 0; f < nFlavours; f++ {
+		if pick < fw[f] {
+			return f
+		}
+		pick -= fw[f]
+	}
+	return fCollect
+}
+
+func (v *vmT) doRange() {
+	fl := v.pickFlavour()
+	if fl == fClear && !v.clearAllowed() {
+		fl = fCollect
+	}
+	v.loopSeq++
+	v.rangeLoop(fl, v.loopSeq, 0)
+	v.checkLen()
+}
+
+func (v *vmT) step() {
 	sp := v.sp
-	var w [nOps]int
-	w = sp.prof.w
+	w := sp.prof.w
 	n := v.sh.n()
+	if v.force > 0 {
+		v.force--
+		if v.r.n(2) == 0 {
+			v.st.forced++
+			v.st.ops[oRange]++
+			v.doRange()
+			v.sample()
+			return
+		}
+	}
 	if sp.prof.osc {
 		if v.rising && n >= sp.hi {
 			v.rising = false
-			v.mix(7)
 		} else if !v.rising && n <= sp.lo {
 			v.rising = true
-			// sometimes start over with a fresh map so that every lower growth threshold is crossed again
-			if v.r.n(4) == 0 {
-				hint := -1
-				if v.r.n(3) == 0 {
-					hint = v.r.n(sp.hi + sp.hi/2 + 2)
+			if !sp.prof.cap {
+				// sometimes start over with a fresh map so that every lower growth threshold is crossed again
+				if v.r.n(4) == 0 {
+					hint := -1
+					if v.r.n(3) == 0 {
+						hint = v.r.n(sp.hi + sp.hi/2 + 2)
+					}
+					v.remake(hint)
+				} else if v.r.n(6) == 0 && v.clearAllowed() {
+					v.doClear()
 				}
-				v.remake(hint)
-			} else if v.r.n(6) == 0 && v.clearAllowed() {
-				v.doClear()
 			}
 		}
 		if v.rising {
-			w[oInsNew], w[oDelLive] = 24, 3
+			w[oInsNew], w[oDelLive] = 100, 12
 		} else {
-			w[oInsNew], w[oDelLive] = 3, 24
+			w[oInsNew], w[oDelLive] = 12, 100
 		}
 	}
 	// iteration costs O(len): keep the total work per history bounded
 	w[oRange] = (w[oRange]*64 + 63 + n) / (64 + n)
 	w[oDump] = (w[oDump]*32 + 31 + n) / (32 + n)
-	if w[oRange] == 0 && sp.prof.w[oRange] > 0 && v.r.n(1+n/16) == 0 {
-		w[oRange] = 1
-	}
 	tot := 0
 	for _, x := range w {
 		tot += x
 	}
 	pick := v.r.n(tot)
 	o := 0
-	for ; o < nOps; o++ {
+	for ; o < nOps-1; o++ {
 		if pick < w[o] {
 			break
 		}
 		pick -= w[o]
 	}
 	v.st.ops[o]++
+	full := sp.prof.cap && n >= sp.hi
 	switch o {
 	case oInsNew:
-		v.assign(v.newKey(), v.r.n(1000000))
+		if full {
+			v.assign(v.liveKey(), v.r.n(1000000))
+		} else {
+			v.assign(v.newKey(), v.r.n(1000000))
+		}
 	case oAssign:
-		v.assign(v.randKey(), v.r.n(1000000))
+		if full {
+			v.assign(v.liveKey(), v.r.n(1000000))
+		} else {
+			v.assign(v.randKey(), v.r.n(1000000))
+		}
 	case oUpdLive:
 		v.assign(v.liveKey(), v.r.n(1000000))
 	case oDelLive:
@@ -842,13 +900,7 @@ func (v *vmT[K, V]) step() {
 		}
 		v.remake(hint)
 	case oRange:
-		fl := v.r.n(nFlavours)
-		if fl == fClear && !v.clearAllowed() {
-			fl = fCollect
-		}
-		v.loopSeq++
-		v.rangeLoop(fl, v.loopSeq, 0)
-		v.checkLen()
+		v.doRange()
 	case oDump:
 		v.dump()
 	case oNil:
@@ -861,8 +913,9 @@ func (v *vmT[K, V]) step() {
 	v.sample()
 }
 
-// probe: the fixed reproducer of finding C06-memclr-stub (DESIGN 7-19)
-func (v *vmT[K, V]) probe() {
+// probe: the fixed reproducer of finding C06-memclr-stub (DESIGN 7-19):
+// fill past 52 entries (B >= 4), clear, insert 20, range.
+func (v *vmT) probe() {
 	for _, fill := range []int{53, 120, 210} {
 		v.remake(-1)
 		for i := 0; i < fill; i++ {
@@ -891,18 +944,18 @@ func (v *vmT[K, V]) probe() {
 		v.op++
 		v.dump()
 		v.checkLen()
-		println("C", v.op, v.h, len(v.m))
+		println("C", v.op, v.h, v.d.Len())
 	}
 }
 
-func run[K comparable, V comparable](ko *keyOps[K], vo *valOps[V], sp *spec) int {
-	v := &vmT[K, V]{ko: ko, vo: vo, sp: sp}
+func run(d driver, sp *spec) int {
+	v := &vmT{d: d, sp: sp, distinct: d.Distinct()}
 	v.r.s = smix(sp.seed) | 1
 	v.h = 1469598103934665603
 	v.rising = true
 	v.trace = traceOn
-	if sp.pool > ko.max {
-		sp.pool = ko.max
+	if sp.pool > d.KeyMax() {
+		sp.pool = d.KeyMax()
 	}
 	v.remake(-1)
 	v.st.remakes = 0
@@ -916,17 +969,18 @@ func run[K comparable, V comparable](ko *keyOps[K], vo *valOps[V], sp *spec) int
 				break
 			}
 			if (v.op+1)%500 == 0 {
-				println("C", v.op+1, v.h, len(v.m))
+				println("C", v.op+1, v.h, v.d.Len())
 			}
 		}
 		v.checkLen()
 		v.dump()
 	}
-	println("END", sp.text, "hash", v.h, "len", len(v.m), "bad", v.bad)
+	println("END", sp.text, "hash", v.h, "len", v.d.Len(), "bad", v.bad)
 	s := &v.st
 	print("STAT ", sp.text, " impl=", peekImpl, " maxB=", s.maxB, " grows=", s.grows, " samesize=", s.sameSize, " loops=", s.loops,
 		" loopsInGrow=", s.loopsInGrow, " loopsGrew=", s.loopsGrew, " maxNover=", s.maxNover, " maxLen=", s.maxLen,
-		" clears=", s.clears, " clearsGrown=", s.clearsGrown, " remakes=", s.remakes, " panics=", s.panics, " yields=", s.yields, " flav=")
+		" clears=", s.clears, " clearsGrown=", s.clearsGrown, " remakes=", s.remakes, " panics=", s.panics, " yields=", s.yields,
+		" forced=", s.forced, " flav=")
 	for i, c := range s.flav {
 		if i > 0 {
 			print(",")
